@@ -167,7 +167,7 @@ func (p *pool) do(rq c08req) c08obs {
 		p.w.stop()
 		p.w = nil
 		p.restarts++
-		return c08obs{Class: "hang", Raw: "worker silent for 12 s"}
+		return c08obs{Class: "hang", Raw: "worker silent for 12 s", Site: "process-stalled"}
 	}
 }
 
@@ -446,6 +446,11 @@ func gen(c *lib.Ctx, rng *rand.Rand) []c08case {
 
 	expectFor := func(tname string, parts ...string) (string, string) {
 		for _, p := range parts {
+			if strings.HasPrefix(p, "segtimeline_") && tname == "subs" {
+				tname = "subs-by-time" // the number in the target URL is then read as a time: no range expectation
+			}
+		}
+		for _, p := range parts {
 			k, v, ok := strings.Cut(p, "_")
 			if !ok {
 				continue
@@ -556,6 +561,14 @@ func gen(c *lib.Ctx, rng *rand.Rand) []c08case {
 		{"snr_-5", "testpic_2s/V300/4294967295.m4s", "100000", "", ""},
 		{"statuscode_[{cycle:8,rsq:1,code:404}]/start_30", "testpic_2s/V300/45.m4s", "100000", "", ""},
 		{"statuscode_[{cycle:8,rsq:1,code:404}]/snr_7", "testpic_2s/V300/45.m4s", "100000", "", ""},
+		{"statuscode_[{cycle:8,rsq:1,code:404}]/snr_7", "testpic_2s/V300/8.m4s", "10000", "", ""},
+		{"statuscode_[{cycle:8,rsq:1,code:404}]/snr_7", "testpic_2s/A48/9.m4s", "10000", "", ""},
+		{"statuscode_[{cycle:8,rsq:0,code:404}]/snr_7", "testpic_2s/V300/7.m4s", "10000", "", ""},
+		{"statuscode_[{cycle:2147483648,rsq:0,code:404}]", "testpic_2s/V300/45.m4s", "100000", "", ""},
+		{"snr_4294967296", "testpic_2s/V300/45.m4s", "100000", "", ""},
+		{"snr_4294967295", "testpic_2s/V300/4294967295.m4s", "100000", "", ""},
+		{"periods_-120", "testpic_2s/Manifest.mpd", "7230000", "4xx", "periods_-120"},
+		{"periods_3600/tsbd_0", "testpic_8s/Manifest.mpd", "7230000", "4xx", "period length is no multiple of the segment duration"},
 		{"statuscode_[{cycle:8,rsq:1,code:404}]", "testpic_2s/V300/45.m4s", "100000", "", ""},
 		{"statuscode_[{cycle:8,rsq:1,code:404}]", "testpic_2s/V300/46.m4s", "100000", "", ""},
 		{"statuscode_[{cycle:8,rsq:1,code:404,rep:A48}]", "testpic_2s/A48/45.m4s", "100000", "", ""},
@@ -984,7 +997,7 @@ func classOf(o c08obs) string {
 	case "crash":
 		return "crash:" + o.Site
 	case "hang":
-		return "hang"
+		return "hang:" + o.Site
 	}
 	return strconv.Itoa(o.Status)
 }
@@ -1000,7 +1013,11 @@ func judge(c *lib.Ctx, id string, cs c08case, o c08obs) {
 		c.Fail(id, "crash:"+o.Site, fmt.Sprintf("%s: the server process died: %s", url, o.Raw), in)
 		return
 	case "hang":
-		c.Fail(id, "hang:"+cs.Group, fmt.Sprintf("%s: no response within the watchdog: %s", url, o.Raw), in)
+		site := o.Site
+		if site == "" {
+			site = "?"
+		}
+		c.Fail(id, "hang:"+site, fmt.Sprintf("%s: no response within the watchdog (%s), the handler was in %s", url, o.Raw, site), in)
 		return
 	case "skip":
 		return
